@@ -457,7 +457,14 @@ func runVestCase(ta *TestApp, seed uint64, idx int, rep *Report, profile string)
 	}
 	nAbsent := 3 + rng.Intn(4)
 	for i := 0; i < nAbsent; i++ {
-		absentIds = append(absentIds, newAddr())
+		id := newAddr()
+		absentIds = append(absentIds, id)
+		// a lineage entry for an address that has no account (yet): a genesis may list one (Validate and InitGenesis accept it);
+		// it says "not genesis-derived", and whatever is later created at the address must be recorded for what it is
+		if rng.Chance(12) {
+			app.CfevestingKeeper.AppendVestingAccountTrace(ctx, vesttypes.VestingAccountTrace{Address: e.addrs[id].String()})
+			rep.Count("trace.stale_entry_on_absent_address")
+		}
 	}
 	// a blocked module account
 	blockedAddr := app.AccountKeeper.GetModuleAddress(authtypes.FeeCollectorName)
@@ -1110,6 +1117,27 @@ func (e *vestEnv) predicates(ctx sdk.Context, op *vestOp, pre *vestSnap, res opR
 	}
 	if msg, broken := vestkeeper.NonNegativeVestingPoolAmountsInvariant(app.CfevestingKeeper)(ctx); true {
 		rep.Eval("C05.nonnegative_invariant", !broken, c, st, msg)
+	}
+	// ---- C06: in every state the pool query reports nothing withdrawable for a pool whose lock end lies ahead, and exactly the
+	// still-locked remainder for a matured one
+	for id, avp := range post.pools {
+		per := post.queryPer[id]
+		if per == nil {
+			continue
+		}
+		for _, p := range avp.VestingPools {
+			w := per[p.Name]
+			if w == nil {
+				continue
+			}
+			if post.now.Before(p.LockEnd) {
+				rep.Eval("C06.query_reports_nothing_before_lock_end", w.Sign() == 0, c, st,
+					fmt.Sprintf("after %s: pool %s of address %d, lock end %s, block time %s: the query reports %v withdrawable", op.term, p.Name, id, p.LockEnd, post.now, w))
+			} else {
+				rep.Eval("C06.query_reports_remainder_after_lock_end", w.Cmp(p.GetCurrentlyLocked().BigInt()) == 0, c, st,
+					fmt.Sprintf("after %s: matured pool %s of address %d still locks %v, the query reports %v", op.term, p.Name, id, p.GetCurrentlyLocked(), w))
+			}
+		}
 	}
 	// ---- C09: existing accounts unchanged (except the split/move sender's original vesting)
 	if op.kind != "time" && op.kind != "delegate" {
